@@ -582,6 +582,44 @@ func genSemantic(i int, rng *rand.Rand) []byte {
 	return []byte(pre + "BEGIN {" + pad + first + sep + second + " }\n" + extra)
 }
 
+// c03NamesAndLists: (a) names with a fixed role (special variables, the predefined arrays,
+// keywords, functions) used in every other role; (b) parenthesised comma lists in every place
+// an expression can stand, with and without anything after them. Both are reported by passes
+// that run after parsing proper (resolver, stray-list check): their positions come from side
+// tables, not from the token stream.
+func c03NamesAndLists() []string {
+	var out []string
+	names := []string{"ARGV", "ENVIRON", "FIELDS", "NR", "NF", "FS", "RSTART", "SUBSEP", "length", "getline", "f", "in", "BEGIN", "substr", "x"}
+	roles := []string{
+		"function N() { return 1 }\n", "function N() { return 1 }\nBEGIN { print N() }\n", "function g(N) { return N }\nBEGIN { g(1) }\n", "function g(a, N) { N[1] = 1 }\n",
+		"function g() { }\nBEGIN { N() }\n", "BEGIN { N = 1 }\n", "BEGIN { N[1] = 1 }\n", "BEGIN { N(1) }\n", "function g(a) { a[1] }\nBEGIN { g(N) }\n", "function g(a) { a = 1 }\nBEGIN { g(N) }\n",
+		"function N(N) { }\n", "function N() { }\nfunction N() { }\n", "BEGIN { N = 1 }\n\nfunction N() { }\n", "\n\n  function g(q,\n\t N, N) { }\n", "BEGIN { delete N }\n", "BEGIN { for (N in N) ; }\n",
+		"BEGIN { for (k in N) N[k] = N }\n", "BEGIN { getline N < \"f\" }\n", "BEGIN { split(\"a\", N); N = 1 }\n", "BEGIN { x = N[1]; y = N + 1 }\n", "{ N++ }\nEND { N[1]++ }\n", "BEGIN { print length(N), N }\nEND { N[1] }\n",
+	}
+	for _, n := range names {
+		for _, r := range roles {
+			out = append(out, strings.ReplaceAll(r, "N", n))
+		}
+	}
+	lists := []string{"(1,2)", "!(3,4)", "(1,2), (3,4)", "$1 ~ (1,2)", "(1,2) in a", "((1,2))", "-(1,2)", "(1,2) (3,4)", "(1,\n2)", "x = (1,2)", "(a,b) ? 1 : 2", "1 ? (a,b) : 2", "(1,2) > 1", "f((1,2))"}
+	prefixes := []string{"", "BEGIN { print (1,2) }\n", "BEGIN { x = (1,2) in a }\n", "function f(p) { return p }\n", "\n\n   "}
+	suffixes := []string{"", "\n", " { print }\n", "\nEND { x = 1 }\n", " { }", "\n\n# c\n"}
+	for _, l := range lists {
+		for _, pre := range prefixes {
+			for _, suf := range suffixes {
+				out = append(out, pre+l+suf)
+			}
+		}
+	}
+	stmts := []string{"(1,2)", "x = (1,2)", "f((1,2))", "print (1,2)(3)", "print (1,2) > \"f\"", "print (1,2), 3", "printf (\"%s\", 1)", "getline (1,2)", "((1,2))", "for ((1,2);;) ;", "for (;(1,2);) ;", "(1,2) in a",
+		"return (1,2)", "x[(1,2)] = 1", "$(1,2) = 1", "if ((1,2)) x", "while ((1,2)) x", "do x; while ((1,2))", "delete a[(1,2)]", "exit (1,2)", "x = 1 + (1,2)", "x = (1,2) in a in b", "print > (1,2)", "(1,2) | getline",
+		"\"c\" | getline (1,2)", "x = y ? (1,2) : 3", "f(1, (2,3), 4)", "x = !(1,2)", "x = -(1,\n\n2)", "print (1,2) (3,4)", "print ((1,2), 3)"}
+	for _, st := range stmts {
+		out = append(out, "function f(p) { return p }\nBEGIN { "+st+" }\n", "function f(p) {\n\t"+st+"\n}\n", "{ "+st+" }", "BEGIN {\n\n    "+st+"\n}\nEND { "+st+" }\n")
+	}
+	return out
+}
+
 func genMutateCorpus(rng *rand.Rand, progs []string) ([]byte, string) {
 	p := []byte(progs[rng.Intn(len(progs))])
 	if len(p) > 4096 {
@@ -739,6 +777,11 @@ func init() {
 			for i := 0; i < ns; i++ {
 				if c.Mine(i) {
 					one("semantic", genSemantic(i, rng), i*(cliEvery/4)) // every 4th also through the CLI
+				}
+			}
+			for i, src := range c03NamesAndLists() {
+				if c.Mine(i) {
+					one("names-lists", []byte(src), i*(cliEvery/2)) // every 2nd also through the CLI
 				}
 			}
 			for i := 0; i < total; i++ {
